@@ -126,6 +126,21 @@ func checkC18(c *Ctx) {
 	c.Notes = append(c.Notes, fmt.Sprintf("B-IDX: %d sites, %d compiler, %d LinBounds, %d unproven", st.sites, st.compiler, st.lin, st.unproved))
 	c18Panics(c, scope)
 	aeadNoncePre(c, "B-PRE-aead", scope)
+	{
+		// the existing B-DIV rule covers the decoder closure; the PKCS#12 KDF helpers (pbkdf.go) divide by lengths of
+		// decoded salts and passwords and sit outside that closure's index rules
+		inScope := map[*ssa.Function]bool{}
+		for _, f := range scope {
+			inScope[f] = true
+		}
+		var extra []*ssa.Function
+		for _, f := range c.P.RepoFuncs("pkcs12") {
+			if !inScope[f] {
+				extra = append(extra, f)
+			}
+		}
+		divSites(c, "B-DIV", extra)
+	}
 	c18Nil(c, scope)
 	c18Pre(c, scope)
 	c18Div(c, scope)
@@ -946,4 +961,51 @@ func lenBaseIsFresh(v ssa.Value) bool {
 		}
 	}
 	return false
+}
+
+// divSites: an integer division or remainder panics when the divisor is zero. Where the divisor is not a non-zero
+// constant it must be provably >= 1 at the site for every input (typically len(x) of decoded data: an empty salt or
+// pattern). Decided by the bounds prover with caller facts.
+func divSites(c *Ctx, rule string, fs []*ssa.Function) {
+	seen := map[*ssa.Function]bool{}
+	n := 0
+	for _, f := range fs {
+		if f == nil || seen[f] || f.Blocks == nil || strings.HasSuffix(c.P.relFile(f.Pos()), "_test.go") || strings.HasSuffix(c.P.relFile(f.Pos()), "pkcs12/rc2.go") {
+			// rc2.go: vendored cipher, its key-schedule arithmetic (a modulus 1<<k with k in 1..8) is declared not decided
+			continue
+		}
+		seen[f] = true
+		var lb *LB
+		k := 0
+		instrsOf(f, func(b *ssa.BasicBlock, in ssa.Instruction) {
+			bo, ok := in.(*ssa.BinOp)
+			if !ok || (bo.Op != token.QUO && bo.Op != token.REM) {
+				return
+			}
+			bt, isB := bo.Type().Underlying().(*types.Basic)
+			if !isB || bt.Info()&types.IsInteger == 0 {
+				return
+			}
+			if kk, isK := constInt(bo.Y); isK && kk != 0 {
+				return
+			}
+			if lb == nil {
+				lb = &LB{p: c.P, f: f, UsedContracts: map[string]bool{}}
+				cf, _ := callerFacts(c.P, f)
+				lb.extra = cf
+			}
+			k++
+			n++
+			c.Evals++
+			okd := lb.prove([]cons{ge(lb.linOf(bo.Y), linConst(1))}, b, nil, map[lvar]lin{}, 3)
+			if !okd && bt.Info()&types.IsUnsigned == 0 {
+				// a negative divisor is not zero either
+				okd = lb.prove([]cons{le(lb.linOf(bo.Y), linConst(-1))}, b, nil, map[lvar]lin{}, 2)
+			}
+			c.Check(okd, rule, fname(f), fmt.Sprintf("divisor of %s #%d is never zero", bo.Op, k), "", "the divisor of this integer "+bo.Op.String()+" is not provably non-zero for every input (an empty decoded salt, pattern or list makes it len(x) == 0): integer divide by zero panics instead of an error", bo.Pos())
+		})
+	}
+	if n == 0 {
+		c.Notes = append(c.Notes, rule+": no integer division by a non-constant in scope")
+	}
 }
